@@ -11,7 +11,7 @@
 (* the contract keeps passing.                                             *)
 (*                                                                         *)
 (* Event records (JSON):                                                   *)
-(*   call : c, conn, cls, m1, m2, api, late, site, fails                   *)
+(*   call : c, conn, cls, m1, m2, api, late, tm, site, fails, deferred     *)
 (*          caller c enters wait_for_*_message / create_*_response_future  *)
 (*          / execute (registration happens in that same loop slot)        *)
 (*   msg  : conn, cls, f1, f2   MessageReceivedEvent reaches the harness'    *)
@@ -21,8 +21,12 @@
 (*          the completion loop follows in the same slot                    *)
 (*   err  : exc                 'error during callback' logged, or the loop *)
 (*          exception handler was reached                                   *)
-(*   stim : c, what             the harness cancels c's task ("cancel") or  *)
-(*          moves the clock past c's deadline ("due"), or makes writes on   *)
+(*   sent : c                   the loop has quiesced and c's negotiation is *)
+(*          still going on: its send is over, its request is made           *)
+(*   stim : c, what             the harness cancels c's task ("cancel"),    *)
+(*          moves the clock past the deadline c asked for ("due"; "maydue"  *)
+(*          when only the earliest possible deadline of a request whose     *)
+(*          timeout starts after its send is passed), or makes writes on    *)
 (*          the connection c is sending on fail ("sendfail")                *)
 (*   out  : c, kind, j, exc     c's call returned message #j of the msg     *)
 (*          events (0: not a handled message) / raised exc                  *)
@@ -48,8 +52,8 @@ MechFrozen ==
   /\ ready = <<>> /\ dueNow = <<>>
   /\ buf = <<>> /\ rsched = <<>> /\ lst = <<>>
   /\ wst = <<>> /\ wres = <<>> /\ wspec = <<>> /\ cpc = <<>> /\ creq = <<>> /\ mustc = <<>>
-  /\ expiring = <<>> /\ armed = <<>> /\ sfail = <<>> /\ dead = {} /\ susp = <<>>
-  /\ nfed = 0 /\ ncancel = 0 /\ ndue = 0 /\ nsf = 0 /\ nslow = 0
+  /\ expiring = <<>> /\ armed = <<>> /\ sfail = <<>> /\ dead = {} /\ susp = <<>> /\ el = <<>>
+  /\ nfed = 0 /\ ncancel = 0 /\ ndue = 0 /\ nsf = 0 /\ nslow = 0 /\ nel = 0
 
 TInit ==
   /\ tid \in 1..Len(Traces)
@@ -80,10 +84,23 @@ MarksOf(c) ==
   \cup (IF ~ErrorDelivered(c) THEN {"TimeoutIsTimeout:" \o site[c] \o ":" \o StimTag(c) \o "-never-raised"} ELSE {})
   \cup (IF outN[c] > 1 THEN {"AtMostOnce:" \o site[c]} ELSE {})
 
+\* whose waiter may be the one left behind: the callers that are finished, by how they ended
+GoneOf(c) == IF out[c].kind = "result" THEN "completed" ELSE IF "sendfail" \in stim[c] THEN "send-failed"
+             ELSE IF "cancel" \in stim[c] THEN "cancelled" ELSE "timed-out"
+Gone == LET S == {c \in Callers : Called(c) /\ out[c].kind # "none"}
+            A == {c \in S : GoneOf(c) \in {"send-failed", "cancelled"}}       \* the unusual ways out first
+            B == {c \in A : cspec[c].api \in {"exec", "place"}}              \* ... of the requests that send first
+            P == IF B # {} THEN B ELSE IF A # {} THEN A ELSE S
+        IN IF S = {} THEN "nobody"
+           ELSE LET c == CHOOSE x \in P : \A d \in P : x <= d IN site[c] \o ":" \o GoneOf(c)
+
 MarksNow ==
      UNION {MarksOf(c) : c \in Callers}
   \cup (IF ~DeliveryUnbroken THEN {"DeliveryUnbroken:on_message_received:" \o ErrTag} ELSE {})
-  \cup (IF ~NoResidue THEN {"NoResidue:done-waiter-still-registered"} ELSE {})
+  \cup (IF quiet /\ resid > 0 THEN {"NoResidue:done-waiter-still-registered"} ELSE {})
+  \cup (IF quiet /\ regn > 0
+         THEN {"NoResidue:waiter-of-finished-request-still-registered:" \o Gone} ELSE {})
+  \cup (IF quiet /\ regn < 0 THEN {"NoResidue:waiting-request-not-registered"} ELSE {})
 
 Step == l' = l + 1 /\ UNCHANGED <<tid, mech>> /\ marks' = marks \cup MarksNow'
 
@@ -92,7 +109,7 @@ TCall ==
   /\ IsEv("call")
   /\ Rec.c \in Callers
   /\ ObsAsk(Rec.c, [conn |-> Rec.conn, cls |-> Rec.cls, m1 |-> Rec.m1, m2 |-> Rec.m2, api |-> Rec.api,
-                    late |-> Rec.late], Rec.fails)
+                    late |-> Rec.late, tm |-> Rec.tm], Rec.fails, Rec.deferred)
   /\ site' = [site EXCEPT ![Rec.c] = Rec.site]
   /\ UNCHANGED errs
   /\ Step
@@ -119,10 +136,18 @@ TErr ==
   /\ UNCHANGED site
   /\ Step
 
+\* the loop has quiesced with caller c's negotiation still going on: its request is made
+TSent ==
+  /\ IsEv("sent")
+  /\ Rec.c \in Callers
+  /\ ObsSent(Rec.c)
+  /\ UNCHANGED <<site, errs>>
+  /\ Step
+
 TStim ==
   /\ IsEv("stim")
   /\ Rec.c \in Callers
-  /\ Rec.what \in {"due", "cancel", "sendfail"}
+  /\ Rec.what \in {"due", "maydue", "cancel", "sendfail"}
   /\ ObsStim(Rec.c, Rec.what)
   /\ UNCHANGED <<site, errs>>
   /\ Step
@@ -136,7 +161,7 @@ TOut ==
 
 TQuiet ==
   /\ IsEv("q")
-  /\ ObsQuiet(Rec.ndone)
+  /\ ObsQuiet(Rec.ndone, Rec.n)
   /\ UNCHANGED <<site, errs>>
   /\ Step
 
@@ -148,7 +173,7 @@ Done ==
 
 Finished == l = Len(T) + 2 /\ UNCHANGED tvars
 
-TNext == TCall \/ TMsg \/ THandled \/ TErr \/ TStim \/ TOut \/ TQuiet \/ Done \/ Finished
+TNext == TCall \/ TSent \/ TMsg \/ THandled \/ TErr \/ TStim \/ TOut \/ TQuiet \/ Done \/ Finished
 
 TSpec == TInit /\ [][TNext]_tvars
 =============================================================================
